@@ -485,6 +485,8 @@ ROOT_CONFIGS = [
     # round 4: file systems made by the package's own factories (entry points that construct a RawFileSystem)
     ('factory-get_filesystem', 'Factory:get_filesystem:{BASE}/t/root'),
     ('factory-get_inst_locs', 'Factory:get_inst_locs:{BASE}/t/root/map.vmf'),
+    # ... and a file system the caller made and then handed to a consumer inside the package (PackList keeps the chain)
+    ('factory-then-PackList', 'Consumer:PackList:{BASE}/t/root'),
 ]
 CHAIN_PREFIXES = [None, '', 'sub', 'sub/']
 # round 4: a chain inside a chain (outer prefix, inner prefix) around the constrained member; and an UNconstrained member on
@@ -596,7 +598,15 @@ def make_fs(base: str, root_spec: str, chain_prefix, constrain: bool = True):
     """(file system under test, its constrained RawFileSystem member)."""
     from srctools.filesys import FileSystemChain, RawFileSystem
     spec = root_spec.replace('{BASE}', base)
-    if spec.startswith('Factory:') and constrain:
+    if spec.startswith('Consumer:'):
+        raw = new_raw(spec.split(':', 2)[2], constrain)
+        if constrain:
+            try:
+                from srctools.packlist import PackList
+                PackList(FileSystemChain(raw))
+            except Exception:          # whatever the consumer does with it: the object is what is examined afterwards
+                pass
+    elif spec.startswith('Factory:') and constrain:
         _, how, arg = spec.split(':', 2)
         if how == 'get_filesystem':
             from srctools.filesys import get_filesystem
@@ -1037,7 +1047,7 @@ def search_trees(ck: Ck) -> None:
         if label.startswith('factory-') and not r['constrained_flag'] and 'factory-makes-unconstrained-file-system' not in found:
             found['factory-makes-unconstrained-file-system'] = {
                 'root': root_spec, 'root_config': label, 'chain_prefix': cp, 'op': op, 'path': path_t, 'file_handle_path': None,
-                'outcome': 'the RawFileSystem made by the package factory has constrain_path=False', 'accessed_outside_root': [],
+                'outcome': 'the RawFileSystem made by the package factory (or handed to a consumer in the package) has constrain_path=False', 'accessed_outside_root': [],
                 'data_returned': [], 'answered_about_outside': [], 'how': 'checks.c18.replay', '_rank': (2, 0), '_n': 1}
         if not r['escapes'] and not r['leaked'] and not r['answered_outside']:
             return False
